@@ -12,7 +12,7 @@ ASSUMPTIONS = ["see DESIGN.md §5 C10"]
 API = "api_schema"
 # a failed YIN parse leaks parsed statements (seen with F20 documents; a C17 matter, noted in findings.d): leak reports at exit
 # would otherwise turn every such run into a harness crash
-API_ENV = {"ASAN_OPTIONS": "detect_leaks=0:abort_on_error=0:exitcode=97:allocator_may_return_null=1:detect_stack_use_after_return=0:max_allocation_size_mb=2048"}
+API_ENV = {"ASAN_OPTIONS": "detect_leaks=0:print_legend=0:abort_on_error=0:exitcode=97:allocator_may_return_null=1:detect_stack_use_after_return=0:max_allocation_size_mb=2048"}
 RT_LAWS = ["yang_parse", "yang_compiled", "yang_reprint", "yang_sub", "yin_parse", "yin_compiled", "yin_sub"]
 
 
@@ -116,6 +116,8 @@ def classify(component, what, case):
             return "F52"
         if "yprc_choice" in err and "heap-use-after-free" in err:
             return "F58"
+        if "lysp_resolve_ext_instance_records" in err and "use-after-free" in err and "tree_schema.c" in err:
+            return "F62"
         return None
     return case.get("explained_by") if case.get("explained_by") in recompute(case) else None
 
@@ -257,7 +259,8 @@ def judge(cx, m, r, d, lex1, lex3):
     # YIN path: the re-printed YANG equals the first YANG print after re-lexing the arguments (quoting style is not carried by YIN)
     if laws.get("yin_parse") == "1" and lex1 and lex3:
         t1 = yangstrcomp.parse_ser(lex1[1]) if lex1[0] == "ok" and lex1[2] == "Eof" else None
-        t3 = yangstrcomp.parse_ser(lex3[1]) if lex3[0] == "ok" and lex3[2] == "Eof" else None
+        # (an unterminated quote swallows the rest of the text: nothing is read, and the loop ends with Eof all the same)
+        t3 = yangstrcomp.parse_ser(lex3[1]) if lex3[0] == "ok" and lex3[2] == "Eof" and lex3[1] != "-" else None
         ok = t1 is not None and t3 is not None and strip_flags(t1) == strip_flags(t3)
         cx.count(("law", name, m["cls"], "yin_relex", m["text"]), True, "c10:yin_relex:%s" % ("holds" if ok else "fails"))
         if not ok:
